@@ -852,6 +852,28 @@ pub fn gen_sub(prop: &str, tier: &str, seed: u64) -> Out {
                     }
                 }
             }
+            // duplicate keys, by construction: the last one wins — adjacent or not, three times, nested, inside arrays,
+            // keys that coincide only after escape decoding, values of every kind, and with the relaxed spacing
+            {
+                let vals = ["1", "2", "null", "true", "\"s\"", "[]", "{}", "[1,2]", "{\"z\":0}", "-0.5"];
+                let keys: [(&str, &str); 4] = [("\"a\"", "\"a\""), ("\"a\"", "\"\\u0061\""), ("\"\"", "\"\""), ("\"k\\n\"", "\"k\\u000a\"")];
+                let mut texts: Vec<String> = vec![];
+                for (i, x) in vals.iter().enumerate() { for (j, y) in vals.iter().enumerate() {
+                    if i == j { continue; }
+                    let (k1, k2) = keys[(i + j) % keys.len()];
+                    texts.push(format!("{{{}:{},{}:{}}}", k1, x, k2, y));
+                    if (i + j) % 3 == 0 { texts.push(format!("{{{}:{},\"b\":7,{}:{}}}", k1, x, k2, y)); }
+                    if (i + j) % 4 == 0 { texts.push(format!("{{\"0\":0,{}:{},\"b\":7,{}:{},\"zz\":[]}}", k1, x, k2, y)); }
+                    if (i + j) % 5 == 0 { texts.push(format!("{{{}:{},{}:{},{}:{}}}", k1, x, k2, y, k1, vals[(i + 1) % vals.len()])); }
+                    if (i + j) % 6 == 0 { texts.push(format!("[{{\"o\":{{{}:{},{}:{}}}}},{{{}:{} , {}:{}}}]", k1, x, k2, y, k2, y, k1, x)); }
+                    if (i + j) % 7 == 0 { texts.push(format!(" {{ {} : {} ,\n{} :\t{} }} ", k1, x, k2, y)); }
+                } }
+                for t in texts {
+                    let h = hex(t.as_bytes());
+                    o.push(format!("jparse {}", h)); o.push(format!("spec:jparse {}", h));
+                    o.stat("text:duplicate-keys");
+                }
+            }
             // texts malformed by construction: a strict rendering with one structural damage that no
             // documented relaxation covers
             for _ in 0..scale(tier, 600, 20000) {
